@@ -136,4 +136,35 @@ def resendBook (s : Sess) (nx : SState) (stash : List (Int × InMsg)) (cur fin :
       else if fin ≥ s.store.target then (s, .resend stash cur fin)
       else drainPart s nx stash
 
+/-! budgets: how many ResendRequests an event may create -/
+
+/-- 1 for a ResendRequest, 0 for anything else -/
+def rrK (m : OutMsg) : Nat := if isRR m then 1 else 0
+
+/-- budget of one inbound message: one ResendRequest, none in a recovery state with everything requested -/
+def inBudget (s : Sess) : Nat :=
+  match curResend s with
+  | some (_, cur, _) => if cur ≠ 0 then 1 else 0
+  | none => 1
+
+/-- how many ResendRequests an event may create: one for an inbound message outside a fully requested recovery, whatever
+    the application itself submits, nothing otherwise -/
+def evBudget (s : Sess) : Ev → Nat
+  | .incomingMsg (some _) => inBudget s
+  | .send m => rrK m
+  | _ => 0
+
+/-! histories -/
+
+def histObs (s : Sess) : List Ev → List Obs
+  | [] => []
+  | e :: es => (step s e).2.1 ++ histObs (step s e).1 es
+def histEnd (s : Sess) : List Ev → Sess
+  | [] => s
+  | e :: es => histEnd (step s e).1 es
+/-- the sum of the budgets of the events of a history, each taken in the state it meets -/
+def histBudget (s : Sess) : List Ev → Nat
+  | [] => 0
+  | e :: es => evBudget s e + histBudget (step s e).1 es
+
 end Qfx.Sess
